@@ -23,7 +23,7 @@ CHECK_DEADLOCK FALSE
 """
 
 SCALARS = ['v', 'w', 'APPLES', '', 'True', 'None', '1', 1, 0, 1.5, True, False, None, -3, 'é', "['v']", "{'c': 'v'}"]
-LITS = ["'v'", '"v"', "'APPLES'", '1', '0', '1.5', 'True', 'False', 'None', '-3', "'True'", "''", '0x10', '1e3', "'é'", '[1,2]', "b'x'"]
+LITS = ['.5', '5.', '1_000', '2.5e-1', '1e+16', '0o17', '0b101', '+1', "'v'", '"v"', "'APPLES'", '1', '0', '1.5', 'True', 'False', 'None', '-3', "'True'", "''", '0x10', '1e3', "'é'", '[1,2]', "b'x'"]
 KEYS = ['a', 'b', 'c']
 
 
